@@ -249,6 +249,33 @@ CHECKS['C12'] = (
     'compared only when present in all probes.',
     'DESIGN.md section 6 C12')
 
+CHECKS['C13'] = (
+    'deviation-bounded exhaustive enumeration of source datasets x label x unit factor (space mode): '
+    'each generated on disk, converted by the real EphysAlfCreator, the output listed and loaded back',
+    'Bounded exhaustive exploration: every configuration within 5 deviations (the full product of 6 144 '
+    'in the thorough tier) of the default over 11 axes (raw data, feature store kind, curation kind '
+    'incl. the no-emptied-id case, probe table, KSLabel, temp_wh.dat, (n,1) vectors, unused top '
+    'template, whitening, label, unit factor). Checked: first dimension of every spikes./clusters./'
+    'templates./channels. file, label placement, times and samples, uuid uniqueness and count, the '
+    'returned model and a fresh load of the output against the source, refusal to convert into the '
+    'source directory, and SHA-1 of every source file before/after.',
+    'uuid4 not owned (only uniqueness/count observed); <= 8 spikes so the subset selector never draws; '
+    'ids below 65536.',
+    'DESIGN.md section 6 C13')
+CHECKS['C14'] = (
+    'exhaustive enumeration of source configurations and of merged probe tuples (space mode); every '
+    'exported value recomputed from the source directory\'s own .npy files',
+    'Bounded exhaustive exploration: single-probe sources over curation x feature store x whitening x '
+    'unit factor x unused top template x one/two probe labels x sample rate, and sources merged by the '
+    'real Merger from every 1-, 2- and 3-tuple over 4-5 probe kinds with permuted / sub-selected '
+    'channel maps. Checked per template and per cluster: rescaled unwhitened waveform on the listed '
+    'channels, listed channels = nearest same-probe channels peak first, spike / template / cluster '
+    'amplitudes with the unit factor, cluster depths and peak-to-trough (NaN for empty ids), spike '
+    'depths (feature-weighted or cluster depth), and channels.rawInd against each probe\'s original map.',
+    '"nearest" accepted under L1 or Euclidean distance, ties in any order; cluster waveforms read from '
+    'the model (validated by C08); merged geometries keep probes apart.',
+    'DESIGN.md section 6 C14')
+
 NOT_YET = {}
 
 ALL = ['C%02d' % i for i in range(1, 21)]
